@@ -151,11 +151,8 @@ def snapshot(build: str, root: str) -> T.Dict[str, T.Dict[str, T.Any]]:
 
 
 def run_meson(args: T.List[str], env: T.Dict[str, str], cwd: str, timeout: int = 300) -> T.Tuple[int, str]:
-    for _attempt in range(3):
-        p = subprocess.run([sys.executable, os.path.join(common.REPO, 'meson.py')] + args, env=env, cwd=cwd,
-                           stdout=subprocess.PIPE, stderr=subprocess.STDOUT, timeout=timeout)
-        if p.returncode >= 0:
-            break       # a negative code is death by signal (machine under pressure): infrastructure, retry
+    p = subprocess.run([sys.executable, os.path.join(common.REPO, 'meson.py')] + args, env=env, cwd=cwd,
+                       stdout=subprocess.PIPE, stderr=subprocess.STDOUT, timeout=timeout)
     return p.returncode, p.stdout.decode('utf-8', 'replace') + f'\n[exit status {p.returncode}]'
 
 
@@ -173,7 +170,12 @@ def run_plan(project_src: str, root: str, steps: T.List[dict], extra_args: T.Seq
             shutil.rmtree(src, ignore_errors=True)
             shutil.rmtree(build, ignore_errors=True)
             copy_tree(project_src, src, st['treeseed'])
-            rc, log = run_meson(['setup', *extra_args, 'build', 'src'], env, root)
+            for _attempt in range(3):
+                # death by signal (machine under memory pressure) is infrastructure: start over from an empty build dir
+                shutil.rmtree(build, ignore_errors=True)
+                rc, log = run_meson(['setup', *extra_args, 'build', 'src'], env, root)
+                if rc >= 0:
+                    break
         elif st['kind'] == 'reconf':
             rec['before'] = snapshot(build, root)
             rc, log = run_meson(['setup', '--reconfigure', 'build', 'src'], env, root)
@@ -190,6 +192,8 @@ def run_plan(project_src: str, root: str, steps: T.List[dict], extra_args: T.Seq
                 rc, log = run_meson(['setup', '--reconfigure', 'build', 'src'], env, root)
         else:
             raise ValueError(st['kind'])
+        if rc < 0:
+            raise common.ToolFailure(f'meson killed by signal {-rc} during {st["kind"]} of {project_src}')
         rec['rc'] = rc
         rec['log'] = log[-3000:]
         rec['snap'] = snapshot(build, root) if rc == 0 else {}
